@@ -41,7 +41,15 @@ class Construction:
     first_tag = len(strings)
     for i in range(len(strings)-1, 0, -1):
       try:
-        self._initialize_tag(*(gfapy.Field._parse_gfa_tag(strings[i])))
+        n, t, s = gfapy.Field._parse_gfa_tag(strings[i])
+        if self.vlevel == 0:
+          # which fields are tags shall not depend on the validation level:
+          # the checks of level 1 decide it also here
+          if n in self._data:
+            raise gfapy.NotUniqueError("Tag {} found multiple times".format(n))
+          self._validate_custom_tagname(n)
+          gfapy.Field._parse_gfa_field(s, t, safe = True, fieldname = n)
+        self._initialize_tag(n, t, s)
       except:
         break
       first_tag = i
